@@ -14,7 +14,7 @@ use crate::world;
 pub static SCENARIO: Scenario = Scenario {
     property: "C10",
     level: "exploration",
-    rule: "issuer-history on GenericBuilder / PasetoBuilder <V, Local>, v1..v4, clock frozen so that nothing but entropy can differ between builds: histories of N builds under one key (N = 16384 per protocol/layer in quick, 100000 in thorough; plus many short histories of random length) with identical or varying claims/footer/assertion, fresh or reused builder objects. Arm 1 (simulate): nonce fields and tokens pairwise distinct, no constant byte position, every bit position's one-count within N/2 +- 10*sqrt(N)/2 (false-alarm < 2^-64), for N >= 16384 all 256 byte values occur at every nonce position (false-alarm < 2^-64), every build draws entropy; the identical event list re-executed with the SAME entropy stream reproduces every token byte for byte, and with a DIFFERENT stream changes every nonce. Arm 2 (fault): the entropy hook fails chosen draws - that build returns Err and emits no token, later builds succeed and stay fresh. Arm 3 (observe): real SystemRandom passes through the hook unmodified, same distinctness/statistics clauses. Non-trivial = history with >= 2 builds under one key or an entropy fault; distinct = distinct abstract traces.",
+    rule: "issuer-history on GenericBuilder / PasetoBuilder <V, Local>, v1..v4, clock frozen so that nothing but entropy can differ between builds: histories of N builds under one key (N = 16384 per protocol/layer in quick, 100000 in thorough; plus many short histories of random length) with identical or varying claims/footer/assertion, fresh or reused builder objects. Arm 1 (simulate): nonce fields and tokens pairwise distinct, no constant byte position, every bit position's one-count within N/2 +- 10*sqrt(N)/2 (false-alarm < 2^-64), for N >= 16384 all 256 byte values occur at every nonce position (false-alarm < 2^-64), every build draws entropy; the identical event list re-executed with the SAME entropy stream reproduces every token byte for byte, and with a DIFFERENT stream changes every nonce. Arm 2 (fault): the entropy hook fails chosen draws - that build returns Err and emits no token, later builds succeed and stay fresh. Arm 3 (observe): real SystemRandom passes through the hook unmodified, same distinctness/statistics clauses; 4*10^5 direct draws of the builders' nonce source; 8 caller threads issuing and drawing at once (interleaving not controlled: notices state shared between caller threads only). Non-trivial = history with >= 2 builds under one key or an entropy fault; distinct = distinct abstract traces.",
     runs: |t| match t {
         Tier::Quick => 16 + 5_000,
         Tier::Thorough => 16 + 200_000,
@@ -40,7 +40,7 @@ fn nonce_of(proto: Proto, token: &str) -> Option<Vec<u8>> {
 
 fn judge(run: &Run, obs: &[Obs]) -> Judgement {
     let mut j = oracle::judge("C10", run, obs);
-    let observe = run.events.iter().any(|e| matches!(e, Op::Build { observe: true, .. } | Op::DrawKeys { .. } | Op::ScriptEntropy { .. }));
+    let observe = run.events.iter().any(|e| matches!(e, Op::Build { observe: true, .. } | Op::DrawKeys { .. } | Op::ScriptEntropy { .. } | Op::ConcurrentIssuers { .. }));
     if observe {
         add_probe(&mut j, "observe_arm_history");
         return j;
@@ -114,6 +114,14 @@ fn gen(ctx: &GenCtx, i: u64) -> Option<Run> {
     let mut rb = RunBuilder::new("C10", "issuer-history", ctx.verif_seed, i);
     let now = gen_now(&mut r);
     let long_n = if ctx.tier == Tier::Quick { 16_384 } else { 100_000 };
+    if i == 17 || i == 18 {
+        // observe arm, concurrent callers (not schedule-controlled, see Op::ConcurrentIssuers)
+        let (proto, layer) = if i == 17 { (Proto::V4L, Layer::Generic) } else { (Proto::V2L, Layer::Batteries) };
+        let key = rb.key(key_for(proto, &mut r));
+        let big = ctx.tier != Tier::Quick;
+        rb.push(Op::ConcurrentIssuers { proto, layer, key, threads: 8, builds_each: if big { 20_000 } else { 3_000 }, draws_each: if big { 200_000 } else { 25_000 } });
+        return Some(rb.finish());
+    }
     if i == 16 {
         // observe arm, entropy source itself: enough direct draws of the builders' nonce material that a source
         // with no more than ~36 bits of entropy repeats with overwhelming probability
